@@ -119,7 +119,8 @@ RULES = {
 
 def check(prop, tier, seed, replay=None):
     rep = C.Report(prop, tier, seed); audit = C.proof_audit(prop)
-    configs = {'C11': ['gcc20-ubsan', 'gcc20-O2-ndebug-emul', 'gcc23-O0-assert-mdspandebug'], 'C03': ['gcc20-ubsan', 'gcc23-O0-assert', 'gcc23-paren-bracket'], 'C13': ['gcc20-ubsan']}[prop]
+    # C03: the second configuration has assertions and the library's _MDSPAN_DEBUG checks live: valid accesses must not trip them
+    configs = {'C11': ['gcc20-ubsan', 'gcc20-O2-ndebug-emul', 'gcc23-O0-assert-mdspandebug'], 'C03': ['gcc20-ubsan', 'gcc23-O0-assert-mdspandebug', 'gcc23-paren-bracket'], 'C13': ['gcc20-ubsan']}[prop]
     if tier == 'thorough': configs = configs + ['clang20-O0-assert', 'clang17-O0-ndebug-emul', 'gcc17-O2-assert']
     rep.cov['rule'] = RULES[prop]; rep.notes['configs'] = configs
     cases = V.gen_cases(seed, tier, {prop}) if not replay else None
